@@ -2,7 +2,7 @@
 """Pretty-print C11 cases/traces: c11_decode.py CASES TRACES [index]"""
 import sys
 NP=3
-OPS=["Estab","ConnClosed","SubIn","SubOut","OpenFail","DialFail","HsIn","HsOut","Validate","Timer","CmdOpen","CmdClose","CmdForce","TaskDie","Release","KillChan","Gate","Notify","NotifyDie"]
+OPS=["Estab","ConnClosed","SubIn","SubOut","OpenFail","DialFail","HsIn","HsOut","Validate","Timer","CmdOpen","CmdClose","CmdForce","TaskDie","Release","KillChan","Gate","Notify","NotifyDie","SleepAll"]
 EV=["Validate","Opened","Closed","OpenFailure","Notif"]
 CALL=["dial","open_substream","force_close"]
 def st(v):
@@ -48,7 +48,8 @@ def show(case,trace):
         for _ in range(n):
             po.append(tuple(trace[i:i+2])); i+=2
         tasks=trace[i]; i+=1
-        print(line," ".join(evs),"|"," ".join(calls),"|"," ; ".join(sts),"| po=%s tasks=%d"%(po,tasks))
+        narm=trace[i]; i+=1
+        print(line," ".join(evs),"|"," ".join(calls),"|"," ; ".join(sts),"| po=%s tasks=%d armed=%d"%(po,tasks,narm))
 if __name__=="__main__":
     cs=[l for l in open(sys.argv[1]).read().splitlines()]
     ts=[l for l in open(sys.argv[2]).read().splitlines()]
